@@ -1,4 +1,6 @@
 mod c01;
+mod c04;
+mod c05;
 mod c09;
 mod live;
 mod c12;
@@ -38,6 +40,15 @@ fn main() {
         Some(p) => Box::new(std::io::BufWriter::new(std::fs::File::create(p).unwrap())),
         None => Box::new(std::io::BufWriter::new(std::io::stdout())),
     };
+    if args[1] == "tracer" {
+        // helper process: seize a thread of another process and keep it traced
+        let tid: i32 = extra.first().and_then(|x| x.parse().ok()).unwrap_or(0);
+        let r = unsafe { libc::ptrace(0x4206 /* PTRACE_SEIZE */, tid, 0, 0) };
+        println!("{}", if r == 0 { "seized" } else { "failed" });
+        loop {
+            std::thread::sleep(std::time::Duration::from_secs(3600));
+        }
+    }
     if args[1] == "one" {
         // re-run single cases by id: `<letter><seed>-<index>` (corpus entries are ids, never recorded outputs)
         for id in &extra {
@@ -67,6 +78,9 @@ fn main() {
         ("gen", "C06") => c12::generate("C06", seed, &tier, &mut out),
         ("gen", "C20") => c12::generate("C20", seed, &tier, &mut out),
         ("gen", "C01") => c01::generate("C01", seed, &tier, &mut out),
+        ("gen", "C05") => { c05::generate("C05", seed, &tier, &mut out); c01::generate("C05", seed, &tier, &mut out) }
+        ("gen", "C04") => { c05::generate("C04", seed, &tier, &mut out); c01::generate("C04", seed, &tier, &mut out); c04::generate(seed, &tier, &mut out) }
+        ("gen", "C07") => c01::generate("C07", seed, &tier, &mut out),
         ("gen", "C19") => c19::generate(seed, &tier, &mut out),
         ("gen", "C15") => c15::generate(seed, &tier, &mut out),
         ("gen", "C13") => c13::generate(seed, &tier, &mut out),
